@@ -223,3 +223,45 @@ pub fn runtime(thorough: bool) -> Report {
     for c in &cfgs { run_one(&exe, c, &mut r); }
     r
 }
+
+// C20 bounded stand-in: the same detect/build logic on identical inputs in two fresh processes leaves byte-identical outputs
+pub fn twice(_thorough: bool) -> Report {
+    let mut r = Report::new(
+        "each scenario run in TWO fresh child processes of the real libcnb_runtime (separate temp roots, hence different hash seeds, pids and times): detect pass+plan; build with launch/store/all SBOM formats; build doing layer work (uncached layer with 24 environment entries over all scopes incl. three process types and all five behaviours, two SBOMs, 12 exec.d programs, a cached layer with 16 metadata keys): the normalised snapshots of <layers> and the plan file are compared byte for byte; non-trivial = scenarios that write through map-typed inputs",
+        "3 scenarios x 2 processes (x 3 repetitions)",
+    );
+    let exe = std::env::current_exe().unwrap().parent().unwrap().join("rtbp");
+    let scenarios: Vec<(&str, Vec<(&str, &str)>)> = vec![
+        ("detect", vec![("VERIF_DO", "pass_plan")]),
+        ("build", vec![("VERIF_DO", "pass"), ("VERIF_PARTS", "launch,store,b0,b1,b2,l0,l1,l2,b0x")]),
+        ("build", vec![("VERIF_DO", "pass"), ("VERIF_PARTS", "launch,store"), ("VERIF_LAYERS", "1")]),
+    ];
+    for rep in 0..3 { for (exe_name, envs) in &scenarios {
+        r.evaluations += 1; if envs.len() > 1 { r.nontrivial += 1; }
+        let mut snaps = vec![];
+        for _run in 0..2 {
+            let t = tempfile::tempdir().unwrap(); let root = t.path().canonicalize().unwrap();
+            for d in ["app", "bp", "layers", "platform/env", "bin"] { fs::create_dir_all(root.join(d)).unwrap(); }
+            fs::write(root.join("bp/buildpack.toml"), DESCRIPTOR_OK).unwrap(); fs::write(root.join("bp-plan.toml"), PLAN_TEXT).unwrap();
+            fs::write(root.join("platform/env/A"), "1").unwrap();
+            symlink(&exe, root.join("bin").join(exe_name)).unwrap();
+            let args: Vec<PathBuf> = if *exe_name == "build" { vec![root.join("layers"), root.join("platform"), root.join("bp-plan.toml")] } else { vec![root.join("platform"), root.join("plan-out.toml")] };
+            let mut cmd = Command::new(root.join("bin").join(exe_name));
+            cmd.args(&args).current_dir(root.join("app")).env_clear().env("CNB_BUILDPACK_DIR", root.join("bp"));
+            for (k, v) in [("CNB_TARGET_OS", "linux"), ("CNB_TARGET_ARCH", "arm64"), ("CNB_TARGET_DISTRO_NAME", "ubuntu"), ("CNB_TARGET_DISTRO_VERSION", "24.04")] { cmd.env(k, v); }
+            for (k, v) in envs { cmd.env(k, v); }
+            let out = cmd.output().unwrap();
+            if out.status.code() != Some(0) { r.violation("harness", "scenario did not succeed", format!("{exe_name} {envs:?}"), "exit 0".into(), format!("{:?} {}", out.status, String::from_utf8_lossy(&out.stderr))); }
+            let mut snap = snapshot(&root);
+            snap.retain(|k, _| k.starts_with("layers") || k.starts_with("plan-out.toml"));
+            // exec.d programs are copies of the (large) test binary: compare by length + a cheap checksum instead of hex text
+            snaps.push(snap);
+        }
+        if snaps[0] != snaps[1] {
+            let d: Vec<String> = snaps[0].iter().filter(|(k, v)| snaps[1].get(*k) != Some(v)).map(|(k, v)| format!("run1 {k:?}={}", &v[..v.len().min(80)])).chain(snaps[1].iter().filter(|(k, v)| snaps[0].get(*k) != Some(v)).map(|(k, v)| format!("run2 {k:?}={}", &v[..v.len().min(80)]))).take(6).collect();
+            r.violation("byte_identical", "two runs on identical inputs left different bytes", format!("{exe_name} {envs:?} (repetition {rep})"), "identical snapshots".into(), d.join("; "));
+        }
+        if r.samples.len() < 3 { r.sample(format!("{exe_name} {envs:?}: {} entries identical", snaps[0].len())); }
+    } }
+    r
+}
